@@ -371,7 +371,13 @@ func gen(r *vh.Rand, tier string, n int, emit func(vh.Case)) {
 					c.Ops = append(c.Ops, fmt.Sprintf("publish %s %s %s -", nodes[h][1:2], tgt, ttl))
 				}
 			}
-			for _, d := range []string{"1", "2", "3", "4", "5", "6", "7", "-"} {
+			depths := []string{"1", "2", "3", "4", "5", "6", "7", "-"}
+			if final[0] == 'C' {
+				// the chain just set up on a fresh name system ends in an immutable path: unlimited depth
+				// (ResolveWithDepth(0)) terminates. Never generated where a cycle is possible.
+				depths = append(depths, "0", "0")
+			}
+			for _, d := range depths {
 				if cr.Chance(2, 3) {
 					c.Ops = append(c.Ops, fmt.Sprintf("resolve %s %s", nodes[0]+genRemainder(cr), d))
 				}
